@@ -135,7 +135,10 @@ namespace {
       // departs from the documented K (sign(theta) missing in `term1`).  The other
       // sub-claims are then verified against the library's own value.
       o.valueKeySuffix = ".theta_le_minus_thetaT";
-      o.fdLibraryValue = true;
+      // only while that finding is listed as known; otherwise this zone is verified
+      // against the documented value like any other input
+      o.fdLibraryValue =
+          verif::Global::get().known_keys.count("C22.mohr.value." + st.cls + o.valueKeySuffix) != 0;
     }
     // K(theta) is C1 only at |theta| = thetaT (Abbo-Sloan) : three smooth pieces
     o.regime = [&m](const M3& x) {
